@@ -11,24 +11,25 @@
 -/
 import GherkinVerif.Lemmas.DocString
 import GherkinVerif.Gen.ParserTable
+import GherkinVerif.KDecide
 namespace GV
 
 /-! ### the table -/
 
 /-- The regenerated table has doc-string content states (states whose only tests are
     `DocStringSeparator`, leaving, and `Other`, a build-only self-loop) … -/
-theorem C13_content_states_exist : Spec.contentStates Gen.parserTable ≠ [] := by decide +kernel
+theorem C13_content_states_exist : Spec.contentStates Gen.parserTable ≠ [] := by kdecide
 
 /-- … and they are entered only through a `DocStringSeparator` branch from a non-content state
     (every such branch leads into one), left only through their own `DocStringSeparator` branch,
     and otherwise loop on `Other`. -/
-theorem C13_content_entry : Spec.contentEntry Gen.parserTable = true := by decide +kernel
+theorem C13_content_entry : Spec.contentEntry Gen.parserTable = true := by kdecide
 
 /-- Every content state of the regenerated table is found by `row?` and its row is a content row
     (so `C13_opaque_run` applies to each of them). -/
 theorem C13_content_rows :
     (Spec.contentStates Gen.parserTable).all
-      (fun s => (Gen.parserTable.row? s).any Spec.isContentRow) = true := by decide +kernel
+      (fun s => (Gen.parserTable.row? s).any Spec.isContentRow) = true := by kdecide
 
 /-- Opacity at the table level, generic in the table: in a content row a line of *any* kind other
     than a doc-string separator or end of file — keyword line, step, tag line, comment, table
